@@ -46,7 +46,7 @@ def budget(tier):
 @st.composite
 def cases(draw, tier="quick"):
     r = draw(st.integers(0, 19))
-    profile = draw(st.sampled_from(["discrete"] * 5 + ["mixed"] * 2 + ["param"] * 2 + ["guarded"]))
+    profile = draw(st.sampled_from(["discrete"] * 4 + ["param"] * 3 + ["mixed"] * 2 + ["guarded"]))
     prog, meta = draw(gen.programs(profile, uninit_ok=False, max_body=3))
     if r <= 10:
         # precedence-sensitive constants
